@@ -1,7 +1,17 @@
 import GoguVerif.Go.Run
 import GoguVerif.Kinds.Common
 import GoguVerif.Spec.C07
-/-! Driver wiring for C07: spec monitor (+ model correspondence). -/
+import GoguVerif.Model.Lru
+import GoguVerif.Model.LruPtr
+/-! Driver wiring for C07: spec monitor + model correspondence.
+
+The model's answer is the Go result tuple (`Model.Lru.Ret`), printed token by token; the monitor's
+expected answer is the specification's `Out` turned into the same tuple by `Ret.ofOut`
+(`Theorems.C07` proves the two equal for every history).  Only the results of the calls are
+compared — no layout of the list or the map.  Both layers of the model run: the pointer-level one
+(`Model.LruPtr`) gives the answer that is compared; the abstract-list one (`Model.Lru`) must give
+the same answer (proved in `Theorems.C07`; a disagreement would be printed as the model answer
+`layers-disagree`). -/
 namespace GoguVerif.Kinds
 open GoguVerif
 
@@ -21,19 +31,24 @@ def parseOp (l : Line) : Option Op :=
   | "count", [] => some .count
   | _, _ => none
 
-def renderOut : Out → List Val
+def renderRet : Model.Lru.Ret → List Val
   | .unit => [.atom "ok"]
-  | .kv (some e) => [.int e.1, .int e.2, .atom "T"]
-  | .kv none => [.int 0, .int 0, .atom "F"]
-  | .v (some v) => [.int v, .atom "T"]
-  | .v none => [.int 0, .atom "F"]
+  | .kvb k v b => [.int k, .int v, Val.ofBool b]
+  | .vb v b => [.int v, Val.ofBool b]
   | .int n => [.int n]
+
+def renderOut (o : Out) : List Val := renderRet (Model.Lru.Ret.ofOut o)
 
 structure St where
   cap : Int
   es : Entries := []
   evicted : Bool := false
   created : Bool := false
+  /-- the model's cache; `none` = the Go variable holds a nil `*LRUCache` (before `create`, or
+  `NewLRU` returned the error) -/
+  m : Option Model.Lru.St := none
+  /-- the same for the pointer-level layer -/
+  pm : Option Model.LruPtr.PSt := none
 
 def kind : Kind where
   σ := St
@@ -43,7 +58,11 @@ def kind : Kind where
   step := fun st l =>
     if l.op == "create" then
       let want : List Val := [.atom (if createOk st.cap then "ok" else "err")]
-      { st := { st with created := true }, tags := ["create"], nontrivial := st.cap ≤ 0
+      let m := Model.Lru.newLRU st.cap
+      let pm := Model.LruPtr.newLRU st.cap
+      { st := { st with created := true, m := m, pm := pm }, tags := ["create"], nontrivial := st.cap ≤ 0
+        model := some (if m.isSome == pm.isSome then [.atom (if pm.isSome then "ok" else "err")]
+                       else [.atom "layers-disagree"])
         spec := if want == l.res then none else some "create-rejects-nonpositive" }
     else
     match parseOp l with
@@ -53,11 +72,24 @@ def kind : Kind where
       let ev := match op, o with
         | .add _ _, .kv (some _) => true
         | _, _ => false
-      let st' : St := { st with es := es', evicted := st.evicted || ev }
+      -- model: a method call through a nil `*LRUCache` dereferences nil (every method reads a field)
+      let (m', mres) : Option Model.Lru.St × List Val := match st.m with
+        | none => (none, [.atom "panic"])
+        | some c => match Model.Lru.step c op with
+          | .ok c' r => (some c', renderRet r)
+          | .stale => (none, [.atom "stale"])
+      let (pm', pres) : Option Model.LruPtr.PSt × List Val := match st.pm with
+        | none => (none, [.atom "panic"])
+        | some c => match Model.LruPtr.step c op with
+          | .ok c' r => (some c', renderRet r)
+          | .fault => (none, [.atom "panic"])
+      let mres := if mres == pres then pres else [.atom "layers-disagree"]
+      let st' : St := { st with es := es', evicted := st.evicted || ev, m := m', pm := pm' }
       match failRes l.res with
-      | some c => { st := st', tags := [l.op], spec := some s!"{c}:{l.op}" }
+      | some c => { st := st', tags := [l.op], model := some mres, spec := some s!"{c}:{l.op}" }
       | none =>
         { st := st', tags := [l.op], nontrivial := st'.evicted
+          model := some mres
           spec := if renderOut o == l.res then none else some s!"lru:{l.op}" }
 
 end Lru
